@@ -535,6 +535,19 @@ func wDF(c *simnet.SimConn) net.PacketConn {
 	return wDFConn{c}
 }
 
+// wVarint: QUIC variable-length integer encoding
+func wVarint(v uint64) []byte {
+	switch {
+	case v < 1<<6:
+		return []byte{byte(v)}
+	case v < 1<<14:
+		return []byte{0x40 | byte(v>>8), byte(v)}
+	case v < 1<<30:
+		return []byte{0x80 | byte(v>>24), byte(v >> 16), byte(v >> 8), byte(v)}
+	}
+	return []byte{0xc0 | byte(v>>56), byte(v >> 48), byte(v >> 40), byte(v >> 32), byte(v >> 24), byte(v >> 16), byte(v >> 8), byte(v)}
+}
+
 // wDrained polls (in simulated time) until none of the transports holds anything any more - no connection ID routed to a
 // connection or to a closed-connection handler, no stateless-reset token - or until bound has passed; it returns what is
 // left ("" = drained). Read through the overlay accessor quic.VerifTransportTables.
